@@ -26,6 +26,15 @@ pub enum Leave {
 // ---------------------------------------------------------------------------------------------------------------
 // allocation observer (hook) -> model of boxes and side records
 
+trait CopiedSize {
+    fn copied_size(self) -> Option<usize>;
+}
+impl CopiedSize for Option<&BoxRec> {
+    fn copied_size(self) -> Option<usize> {
+        self.map(|r| r.size)
+    }
+}
+
 pub fn install_observer() {
     verif::set_box_observer(Some(observer));
 }
@@ -168,6 +177,13 @@ fn observer(kind: ObsKind, addr: usize, size: usize, align: usize) {
             }
         }
         ObsKind::OtherDealloc => {
+            if !m.sides.contains_key(&addr) {
+                if let Some(b) = m.boxes.get(&addr).copied_size() {
+                    // a managed box released through the path for other blocks: allocated_bytes() keeps counting it
+                    wd.err("C11", "box_released_unaccounted", "box_freed_without_accounting".into(), format!("the managed box at {:#x} ({} bytes) was released without being subtracted from allocated_bytes() (stack {})", addr, b, wd.stack_sig()));
+                    return;
+                }
+            }
             let Some(rec) = m.sides.remove(&addr) else {
                 if let Ok(mut l) = wd.leaked_addrs.try_borrow_mut() {
                     if l.remove(&addr).is_some() {
@@ -1534,6 +1550,20 @@ pub fn check_qp(wd: &World, at: &str) {
                 Misaligned => wd.harness_error("allocator returned a misaligned block".into()),
                 WriteAfterFree => wd.err("C01", "write_after_free", "write_into_freed_block".into(), format!("freed block {:#x} ({} bytes) was written to at offset {}", e.ptr, e.size, e.other_size)),
                 TableFull => wd.harness_error("allocator table full".into()),
+            }
+        }
+        // boxes the crate still accounts for must still be allocated (a box released without notification keeps being
+        // counted by allocated_bytes())
+        if wd.epoch_boxes_known() {
+            let m = wd.m.borrow();
+            for (a, rec) in m.boxes.iter() {
+                match valloc::lookup(*a) {
+                    Some(b) if !b.parked => {}
+                    _ => {
+                        wd.err("C11", "accounted_box_not_allocated", "allocated_bytes_counts_freed_box".into(), format!("allocated_bytes() still accounts for the box at {:#x} ({} bytes) but that block has been released", a, rec.size));
+                        break;
+                    }
+                }
             }
         }
         // boxes the crate says it released must really be gone
